@@ -650,6 +650,35 @@ pub fn detached<A: Actor>(name: Option<String>) -> Result<Detached, SpawnErr> {
     })
 }
 
+/// Create what `ActorRuntime::spawn_linked_remote` creates (a proxy cell for an actor living on
+/// another node: never entered into the name or pid registries), without a task
+#[cfg(feature = "cluster")]
+pub fn detached_remote<A: Actor>(
+    name: Option<String>,
+    id: crate::ActorId,
+) -> Result<Detached, SpawnErr> {
+    let (cell, ports) = ActorCell::new_remote::<A>(name, id)?;
+    let guard = ActorLifecycleGuard::new(cell.clone());
+    Ok(Detached {
+        cell,
+        ports: Some(ports),
+        guard: Some(guard),
+    })
+}
+
+thread_local! {
+    static PID_FAULT: Cell<bool> = const { Cell::new(false) };
+}
+
+/// Make the next `register_pid` on this thread fail (exercises the name rollback in `ActorCell::new`)
+pub fn inject_pid_fault() {
+    PID_FAULT.with(|c| c.set(true));
+}
+
+pub(crate) fn take_pid_fault() -> bool {
+    PID_FAULT.with(|c| c.replace(false))
+}
+
 impl Detached {
     /// publish a status the way the actor task would
     pub fn set_status(&self, st: ActorStatus) -> ActorStatus {
@@ -706,6 +735,11 @@ impl Detached {
     pub fn terminate(&self) {
         self.cell.terminate();
     }
+}
+
+/// `ActorCell::set_status` from outside the crate (a second caller racing the lifecycle guard)
+pub fn cell_set_status(cell: &ActorCell, st: ActorStatus) -> ActorStatus {
+    cell.set_status(st)
 }
 
 /// raw admission word of a cell
